@@ -9,6 +9,8 @@ Driver for C15 (allocation failure).
 import AsmjitVerif.Spec.Fault
 import AsmjitVerif.Model.FaultPool
 import AsmjitVerif.Model.FaultBuilder
+import AsmjitVerif.Model.FaultCompiler
+import AsmjitVerif.Model.FaultJit
 import Driver.Common
 namespace Driver.C15
 open AsmjitVerif AsmjitVerif.Fault Driver
@@ -74,6 +76,12 @@ structure DS where
   st : St := St.init
   pool : FaultPool.FPool := {}
   /-- monitor of `padd`: the last pool dump of the implementation and the constants added so far with their offsets -/
+  jit : JitAlloc.Alloc := JitAlloc.Alloc.init (JitAlloc.mkConfig 0 64 65536 0)
+  jres : FaultMore.Res := {}
+  jspans : List (Option (Nat × Nat)) := []
+  jlast : String := ""
+  cst : FaultCompiler.CSt := {}
+  csv : FaultCompiler.CView := {}
   bst : FaultBuilder.BSt := {}
   /-- monitor of the Builder lines: the spec's view -/
   bsv : FaultBuilder.BView := {}
@@ -280,17 +288,135 @@ def bMonStep (d : DS) (w : List String) (impl : String) : DS × String :=
     | _ => (d, "BAD bad-op")
   | _ => (d, "BAD unparsable answer")
 
+/-! ### BaseCompiler lines -/
+
+def renderCNode : FaultCompiler.CNode → String
+  | .section => "S" | .func l => s!"F{l}" | .label i => s!"L{i}" | .sentinel => "Z" | .inst k => s!"I{k}" | .invoke n => s!"V{n}"
+
+def renderCView (v : FaultCompiler.CView) : String :=
+  "N=" ++ joinC (v.nodes.map renderCNode) ++ s!" CUR={v.cursor} LC={v.labelCount} R=" ++
+  String.join (v.regs.map fun b => if b then "1" else "0")
+
+def renderCCaps (c : FaultCompiler.CCaps) : String := s!"C={c.labCap},{c.lnSize},{c.lnCap},{c.vregCap}"
+
+def cErrName : Err → String
+  | .ok => "ok" | .oom => "OutOfMemory" | e => errName e
+
+def parseCOp (w : List String) : Option FaultCompiler.COp :=
+  match w with
+  | ["reg", l] => l.toNat?.map fun n => .newReg (n != 0)
+  | ["func", n] => n.toNat?.map .addFunc
+  | ["invoke", n] => n.toNat?.map .invoke
+  | ["emit", k] => k.toNat?.map .emit
+  | ["endfunc"] => some .endFunc
+  | _ => none
+
+def cModelStep (d : DS) (w : List String) : DS × String :=
+  match w with
+  | ["reset"] => ({ d with cst := {} }, s!"ok n=0 | {renderCView ({} : FaultCompiler.CView)} | {renderCCaps {}}")
+  | mask :: rest =>
+    match parseHex? mask, parseCOp rest with
+    | some m, some op =>
+      let o := oracleOfMask m
+      let (o', s', e) := FaultCompiler.cstep op o d.cst
+      ({ d with cst := s' }, s!"{cErrName e} n={o.length - o'.length} | {renderCView s'.v} | {renderCCaps s'.c}" ++
+        (if s'.corrupt then " CORRUPT" else ""))
+    | _, _ => (d, "bad-op")
+  | _ => (d, "bad-op")
+
+/-- monitor of a Compiler call: out of memory => nodes, cursor and registers unchanged, at most two label ids used up (only by
+`func`); otherwise the failure-free effect, except that a long register name that cannot be copied is dropped -/
+def cMonStep (d : DS) (w : List String) (impl : String) : DS × String :=
+  match impl.splitOn " | " with
+  | [h, view, _] =>
+    let err := (words h).headD ""
+    match w with
+    | ["reset"] => if view == renderCView {} then ({ d with csv := {} }, "good") else (d, "BAD reset state")
+    | _ :: rest =>
+      match parseCOp rest with
+      | none => (d, "BAD bad-op")
+      | some op =>
+        if err == "OutOfMemory" then
+          let l1 := { d.csv with labelCount := d.csv.labelCount + 1 }
+          let l2 := { d.csv with labelCount := d.csv.labelCount + 2 }
+          let isFunc := match op with | .addFunc _ => true | _ => false
+          if view == renderCView d.csv then (d, "good")
+          else if isFunc && view == renderCView l1 then ({ d with csv := l1 }, "good")
+          else if isFunc && view == renderCView l2 then ({ d with csv := l2 }, "good")
+          else (d, "BAD out-of-memory answer but the node list / cursor / registers changed")
+        else
+          let (v', e') := FaultCompiler.cspec op d.csv
+          let alt : FaultCompiler.CView := match op with
+            | .newReg true => { d.csv with regs := d.csv.regs ++ [false] }
+            | _ => v'
+          if cErrName e' != err then (d, s!"BAD answer {err}, the failure-free answer is {cErrName e'}")
+          else if view == renderCView v' then ({ d with csv := v' }, "good")
+          else if view == renderCView alt then ({ d with csv := alt }, "good")
+          else ({ d with csv := v' }, "BAD state after the call differs from the failure-free effect")
+    | _ => (d, "BAD bad-op")
+  | _ => (d, "BAD unparsable answer")
+
+/-! ### JitAllocator lines -/
+
+def renderJit (a : JitAlloc.Alloc) : String :=
+  let st := a.stats
+  s!"blocks={st.blocks} allocs={st.allocs} used={st.used} reserved={st.reserved}"
+
+def jModelStep (d : DS) (w : List String) : DS × String :=
+  match w with
+  | ["reset", opts] =>
+    let a := JitAlloc.Alloc.init (JitAlloc.mkConfig (opts.toNat?.getD 0) 64 65536 0)
+    ({ d with jit := a, jres := {}, jspans := [] }, s!"ok n=0 | {renderJit a}")
+  | [mask, "alloc", size] =>
+    match parseHex? mask, size.toNat? with
+    | some m, some sz =>
+      let o := oracleOfMask m
+      let (o', a', res', r) := FaultJit.allocF o d.jit d.jres sz
+      let n := o.length - o'.length
+      match r with
+      | .ok sp => ({ d with jit := a', jres := res', jspans := d.jspans ++ [some (sp.blk, sp.off)] }, s!"ok n={n} | {renderJit a'}")
+      | .error e =>
+        let en := if m != 0 then "fail" else e.name
+        ({ d with jit := a', jres := res' }, s!"{en} n={n} | {renderJit a'}")
+    | _, _ => (d, "bad-op")
+  | [_, "release", i] =>
+    match i.toNat? with
+    | some i =>
+      match d.jspans.getD i none with
+      | some (blk, off) =>
+        let (a', r) := d.jit.release blk off
+        let en := match r with | .ok _ => "ok" | .error e => e.name
+        ({ d with jit := a', jspans := d.jspans.set i none }, s!"{en} n=0 | {renderJit a'}")
+      | none => (d, "precond")
+    | none => (d, "bad-op")
+  | _ => (d, "bad-op")
+
+/-- monitor of the JitAllocator lines: a failed `alloc` leaves the statistics as they were -/
+def jMonStep (d : DS) (w : List String) (impl : String) : DS × String :=
+  if impl == "precond" then (d, "good") else
+  match impl.splitOn " | " with
+  | [h, st] =>
+    let err := (words h).headD ""
+    if err.startsWith "fail" && st != d.jlast then (d, "BAD a failed alloc changed the allocator's statistics")
+    else if err != "ok" && !(err.startsWith "fail") && w.getD 1 "" == "alloc" && st != d.jlast then (d, "BAD a refused alloc changed the statistics")
+    else ({ d with jlast := st }, "good")
+  | _ => (d, "BAD unparsable answer")
+
 def stepLine (d : DS) (line : String) : DS × String :=
   match line.splitOn " => " with
   | [l, impl] =>
     match words l with
     | "m" :: rest => monStep d rest impl
     | "mb" :: rest => bMonStep d rest impl
+    | "mc" :: rest => cMonStep d rest impl
+    | "mj" :: rest => jMonStep d rest impl
     | _ => (d, "bad-op")
   | _ =>
     match words line with
     | "o" :: rest => modelStep d rest
     | "b" :: rest => bModelStep d rest
+    | "c" :: rest => cModelStep d rest
+    | "j" :: rest => jModelStep d rest
     | "run" :: rest => (d, monRun rest)
     | _ => (d, "bad-op")
 
